@@ -194,10 +194,65 @@ let seq t : string =
   done;
   String.concat " | " (List.rev !out)
 
+(* hcall <helper> <rest of a render line>: the VALUE a documented helper returns for the status, in a canonical text
+   (map keys and topic lists sorted), from the model's apply_fn *)
+let str_of (s : Model.ascii list) : string =
+  let code (Model.Ascii (b0, b1, b2, b3, b4, b5, b6, b7)) =
+    let b x k = if x then k else 0 in b b0 1 + b b1 2 + b b2 4 + b b3 8 + b b4 16 + b b5 32 + b b6 64 + b b7 128 in
+  String.concat "" (List.map (fun a -> String.make 1 (Char.chr (code a))) s)
+
+let field_of (v : Model.value) (name : string) : Model.value option =
+  match v with
+  | Model.VStruct (_, fs) -> (try Some (List.assoc (cs name) fs) with Not_found -> None)
+  | _ -> None
+
+let hcall t : string =
+  let which = next t in
+  let _tmpl = next t in
+  let _stategood = next t in
+  let cluster = next_str t in let group = next_str t in let id = next_str t in
+  let _start = next_z t in
+  let extras = read_extras t in
+  let data = read_status t cluster group id extras in
+  let sch = Model.burrow_schema in
+  match field_of data "Result" with
+  | None -> "ILLTYPED"
+  | Some result ->
+    let get n = match field_of result n with Some v -> v | None -> Model.VBool false in
+    let canon_int v = match v with Model.VInt (_, z) -> sz z | _ -> "?" in
+    (match which with
+     | "topicsbystatus" ->
+       (match Model.apply_fn sch Model.FTopics [get "Partitions"] with
+        | Model.Ok (Model.VMap (_, kv)) ->
+          let entry (k, v) = match v with
+            | Model.VSlice (_, l) ->
+              str_of k ^ "=" ^ String.concat "," (List.sort compare (List.map (fun x -> match x with Model.VStr s -> str_of s | _ -> "?") l))
+            | _ -> str_of k ^ "=?" in
+          "OK " ^ String.concat ";" (List.sort compare (List.map entry kv))
+        | Model.Ok _ -> "OK ?"
+        | Model.Err _ -> "ERR")
+     | "partitioncounts" ->
+       (match Model.apply_fn sch Model.FCounts [get "Partitions"] with
+        | Model.Ok (Model.VMap (_, kv)) ->
+          "OK " ^ String.concat ";" (List.sort compare (List.map (fun (k, v) -> str_of k ^ "=" ^ canon_int v) kv))
+        | Model.Ok _ -> "OK ?"
+        | Model.Err _ -> "ERR")
+     | "maxlag" ->
+       (match Model.apply_fn sch Model.FMaxlag [get "Maxlag"] with
+        | Model.Ok v -> "OK " ^ canon_int v
+        | Model.Err _ -> "ERR")
+     | "arith" ->
+       let a = get "TotalPartitions" in
+       let seven = Model.VInt (Model.TInt (cs "int"), zi 7) in
+       let one f = match Model.apply_fn sch f [a; seven] with Model.Ok v -> canon_int v | Model.Err _ -> "ERR" in
+       "OK " ^ String.concat " " [one Model.FAdd; one Model.FMinus; one Model.FMul; one Model.FDiv]
+     | k -> failwith ("drv_tmpl: unknown helper " ^ k))
+
 let run (line : string) : string =
   let t = toks_of_line line in
   match next t with
   | "render" -> render t
   | "conf" -> conf t
   | "seq" -> seq t
+  | "hcall" -> hcall t
   | k -> failwith ("drv_tmpl: unknown case kind " ^ k)
